@@ -70,7 +70,10 @@ type repState struct {
 	// discarded: bugs whose uncommitted (staged) operations were dropped by a close; their
 	// excerpt in the cache file still shows them until the bug is touched again
 	discarded map[string]bool
-	wiped     bool
+	// discardedIdent: identities whose staged (refused, uncommitted) version was dropped by a close;
+	// the identity excerpt in the cache file still shows it
+	discardedIdent map[string]bool
+	wiped          bool
 	user      entity.Id // adopted user identity (shared_user runs), "" = the replica's own first identity
 }
 
@@ -232,7 +235,7 @@ func (x *run) setup() error {
 				return err
 			}
 		}
-		rs := &repState{r: r, alive: true, lastOps: map[string][]string{}, removed: map[string]bool{}, clocks: map[string]uint64{}, staged: map[string]bool{}, partition: map[int]bool{}, discarded: map[string]bool{}}
+		rs := &repState{r: r, alive: true, lastOps: map[string][]string{}, removed: map[string]bool{}, clocks: map[string]uint64{}, staged: map[string]bool{}, partition: map[int]bool{}, discarded: map[string]bool{}, discardedIdent: map[string]bool{}}
 		x.reps = append(x.reps, rs)
 		n := 1 + p.CfgInt("extra_idents", 0)
 		for k := 0; k < n; k++ {
@@ -1218,6 +1221,19 @@ func (x *run) stepIdentMut(rs *repState, s *sim.Step) error {
 		err = i.CommitAsNeeded(rs.r.Sim)
 	}
 done:
+	if err != nil && rs.r.Cache != nil && rs.alive {
+		// Mutate stages the new version in the live identity and Commit refused it: nothing in the
+		// API takes a staged version back, so the only thing a client can do with that instance is
+		// to drop it. The session ends here (what a command does on an error) and a new one starts.
+		x.stepCommit(rs, &sim.Step{})
+		if rerr := x.stepRestart(rs, &sim.Step{K: "clean"}); rerr != nil {
+			return rerr
+		}
+		x.probe("session_ended_after_refused_identity_commit")
+		rs.discardedIdent[string(id)] = true
+	} else if err == nil {
+		delete(rs.discardedIdent, string(id)) // its excerpt was rewritten from a committed version
+	}
 	if invalid && x.on("C09") {
 		after, _ := model.ReadIdentity(rs.r.Raw, "refs/identities/"+string(id))
 		x.probe("invalid_identity_version_tried")
@@ -1287,6 +1303,8 @@ func (x *run) stepLoseCache(rs *repState, s *sim.Step) error {
 	gb := filepath.Join(r.Dir, ".git", "git-bug")
 	if s.N&1 != 0 {
 		_ = os.RemoveAll(filepath.Join(gb, "cache"))
+		rs.discarded = map[string]bool{} // rebuilt from git
+		rs.discardedIdent = map[string]bool{}
 	}
 	if s.N&2 != 0 {
 		_ = os.RemoveAll(filepath.Join(gb, "indexes"))
